@@ -563,7 +563,8 @@ Theorem code_sound_int src s : r_loc resp = LCode src s ->
   r_status resp = 302 /\ r_ran resp = Some HSignIn.
 Proof.
   intros Hl. destruct (sign_in_loc_code src s Hl) as [Hg [Hs [Hq [Hc He]]]].
-  pose proof (FP.code_sound lower (fcfg d) p now_s _ ck (an_refresh an) (an_validate an) s Hc) as [[_ [_ [_ [_ Hst]]]] [s0 [Hck [Hlt [Hru [Hem [Hli [Hrt [Hops Hor]]]]]]]]].
+  pose proof (FP.code_sound lower (fcfg d) p now_s (F.mkSI true true true true (B.form_get k_state (the_form r))) ck
+                (an_refresh an) (an_validate an) s Hc) as [[_ [_ [_ [_ Hst]]]] [s0 [Hck [Hlt [Hru [Hem [Hli [Hrt [Hops Hor]]]]]]]]].
   destruct Hg as [Hm [Hi [Hid [Hru' Hsg]]]].
   split; [repeat split; assumption|]. split; [exact Hs|]. split; [exact Hst|].
   split. { intros sch ui h port rest Hsp. rewrite Hs in Hsp. exact (GP.host_in_domain _ _ _ _ _ _ _ Hru' Hsp). }
@@ -576,3 +577,141 @@ Proof.
 Qed.
 
 End SignIn.
+
+(* ------------------------------------------------------------------------------------------ *)
+(* back channel: C08 through the adapter *)
+
+Section Back.
+Variable lower : str -> str.
+Variables (d : deployment) (o : oracles) (now_ns : Z) (slug : str) (p : F.pkind) (q : request) (an : answers).
+Let now_s := (now_ns / ns)%Z.
+Let e := benv d p o an now_s.
+Variable h : B.handler.
+Let r := inner q (rt_path (rt_back h)).
+Let resp := serve_route lower d slug p q o an now_ns (rt_back h) r (B.init_state (d_pre d) r).
+Let rs := B.serve_route (bcfg d) e (b_route h) r (B.init_state (d_pre d) r).
+
+Lemma b_route_both : BP.both_gates (b_route h).
+Proof. split; cbn; auto. Qed.
+
+Lemma resp_of_back : resp = of_back d o now_ns p an r rs.
+Proof. apply back_adapter. Qed.
+
+Lemma of_back_ran rq rs0 : r_ran (of_back d o now_ns p an rq rs0) = option_map HBack (B.rs_ran rs0).
+Proof. unfold of_back. destruct (B.rs_ran rs0); reflexivity. Qed.
+Lemma of_back_status rq rs0 : r_status (of_back d o now_ns p an rq rs0) = B.rs_status rs0.
+Proof. unfold of_back. destruct (B.rs_ran rs0); reflexivity. Qed.
+
+(* C08_gate_sound for the integrated response: a back-channel handler runs only for a caller who
+   presented the configured client id AND secret (as the gates read them) with the allowed method;
+   otherwise 405 / 500 (bare mux only) / 401, no IdP call, no cookie effect, an error body *)
+Theorem back_gate_sound_int :
+  (forall h', r_ran resp = Some h' ->
+     h' = HBack h /\ mem_str (B.rq_method r) (rt_methods (rt_back h)) = true /\
+     B.presented_id r = d_client_id d /\ B.presented_secret r = d_client_secret d) /\
+  (r_ran resp = None ->
+     r_calls resp = [] /\ r_sess_ops resp = [] /\ r_csrf_ops resp = [] /\ r_loc resp = LNone /\
+     r_body resp = err_body r (r_status resp) /\
+     ((r_status resp = 405 /\ mem_str (B.rq_method r) (rt_methods (rt_back h)) = false) \/
+      (r_status resp = 500 /\ d_pre d = false /\ snd (B.compute_form r) = true) \/
+      (r_status resp = 401 /\ (B.presented_id r <> d_client_id d \/ B.presented_secret r <> d_client_secret d)))).
+Proof.
+  destruct (BP.gate_sound (bcfg d) e (b_route h) r (d_pre d) b_route_both) as [H1 H2].
+  fold rs in H1, H2. rewrite resp_of_back. rewrite of_back_ran. split.
+  - intros h' Hr. destruct (B.rs_ran rs) as [h0|] eqn:Er; [|discriminate]. cbn in Hr. inversion Hr; subst.
+    destruct (H1 h0 eq_refl) as [-> [Hm [Hi Hs]]]. auto.
+  - intros Hr. destruct (B.rs_ran rs) as [h0|] eqn:Er; [discriminate|].
+    destruct (H2 eq_refl) as [_ [_ Hst]]. unfold of_back. rewrite Er. cbn.
+    repeat split; try reflexivity. exact Hst.
+Qed.
+
+(* ... hence the configured values occur among what the caller sent, wherever it put them *)
+Theorem back_knowledge_int h' :
+  d_client_id d <> [] -> d_client_secret d <> [] -> r_ran resp = Some h' ->
+  In (d_client_id d) (B.id_values r) /\ In (d_client_secret d) (B.secret_values r).
+Proof.
+  intros Hi Hs Hr. rewrite resp_of_back, of_back_ran in Hr.
+  destruct (B.rs_ran rs) as [h0|] eqn:Er; [|discriminate].
+  exact (BP.gate_sound_knowledge (bcfg d) e (b_route h) r (d_pre d) h0 b_route_both Hi Hs Er).
+Qed.
+
+(* effects need the handler *)
+Lemma back_effects_need_handler :
+  r_ran resp = None -> r_calls resp = [] /\ (forall b, r_body resp <> BJson b).
+Proof.
+  intros Hr. destruct back_gate_sound_int as [_ H2]. destruct (H2 Hr) as [Hc [_ [_ [_ [Hb _]]]]].
+  split; [exact Hc|]. intros b. rewrite Hb. unfold err_body. destruct (accept_json r); discriminate.
+Qed.
+
+End Back.
+
+(* ---- /redeem: only genuine codes redeem (C08_redeem_genuine), and an issued code does redeem ---- *)
+Section Redeem.
+Variable lower : str -> str.
+Variables (d : deployment) (o : oracles) (now_ns : Z) (slug : str) (p : F.pkind) (q : request) (an : answers).
+Let now_s := (now_ns / ns)%Z.
+Let e := benv d p o an now_s.
+Let r := inner q B.p_redeem.
+Let resp := serve_route lower d slug p q o an now_ns (rt_back B.HRedeem) r (B.init_state (d_pre d) r).
+
+Definition session_json (s : B.session) (now : Z) : B.body :=
+  {| B.b_access := Some (B.s_access s); B.b_refresh := Some (B.s_refresh_tok s);
+     B.b_email := Some (B.s_email s); B.b_expires := Some (B.s_refresh_dl s - now)%Z; B.b_groups := None |}.
+
+Theorem redeem_genuine_int :
+  r_status resp = 200 ->
+  exists s, o_open o (B.presented_code r) = Some (d_code_key d, s) /\
+    (now_s <= B.s_refresh_dl s)%Z /\ (now_s <= B.s_lifetime_dl s)%Z /\
+    r_body resp = BJson (session_json s now_s) /\ r_calls resp = [] /\ r_sess_ops resp = [] /\
+    B.presented_id r = d_client_id d /\ B.presented_secret r = d_client_secret d /\ B.rq_method r = B.m_post.
+Proof.
+  intros Hst.
+  pose proof (back_adapter lower d o now_ns slug p q an B.HRedeem r) as Ha. fold resp in Ha.
+  set (rs := B.serve_route (bcfg d) (benv d p o an (now_ns / ns)) (b_route B.HRedeem) r (B.init_state (d_pre d) r)) in Ha.
+  assert (Hs : B.serve (bcfg d) e (d_pre d) r = rs) by reflexivity.
+  rewrite Ha, of_back_status in Hst.
+  destruct (BP.redeem_genuine (bcfg d) e (d_pre d) r eq_refl) as [s [Ho [Hr [Hl [Hb [Hc [Hi [Hsec Hm]]]]]]]].
+  { rewrite Hs. exact Hst. }
+  rewrite Hs in Hb, Hc. exists s. split; [exact Ho|]. split; [exact Hr|]. split; [exact Hl|].
+  destruct (BP.gate_sound (bcfg d) e (b_route B.HRedeem) r (d_pre d) (b_route_both B.HRedeem)) as [G1 G2].
+  fold rs in G1, G2.
+  destruct (B.rs_ran rs) as [h0|] eqn:Er.
+  2:{ exfalso. destruct (G2 eq_refl) as [_ [_ [[X _]|[[X _]|[X _]]]]]; rewrite Hst in X; discriminate. }
+  destruct (G1 h0 eq_refl) as [-> _]. rewrite Ha. unfold of_back. rewrite Er. unfold of_back_handler, mk. cbn [r_body r_calls r_sess_ops].
+  unfold back_body. rewrite Hb, Hc. cbn [has_field B.b_access]. cbn [flat_map].
+  split; [reflexivity|]. split; [reflexivity|].
+  split; [|auto].
+  (* not expired, so nothing is cleared *)
+  unfold redeem_clears. cbn [B.parse_form]. cbn [negb andb B.form_of].
+  change (B.form_get B.k_code (the_form r)) with (B.presented_code r).
+  unfold B.unseal. cbn [B.e_open benv]. rewrite Ho. rewrite N.eqb_refl.
+  change (B.e_now (benv d p o an (now_ns / ns))) with now_s.
+  assert (X1 : (B.s_refresh_dl s <? now_s)%Z = false) by (apply Z.ltb_ge; exact Hr).
+  assert (X2 : (B.s_lifetime_dl s <? now_s)%Z = false) by (apply Z.ltb_ge; exact Hl).
+  rewrite X1, X2. reflexivity.
+Qed.
+
+(* the converse, which closes the loop with /sign_in: a string that opens under the auth-code key
+   to a live session, presented by a caller with the client credentials, redeems to exactly that
+   session's e-mail and tokens *)
+Theorem code_redeems_int s :
+  B.rq_method r = B.m_post -> init_err d r = false ->
+  B.presented_id r = d_client_id d -> B.presented_secret r = d_client_secret d ->
+  o_open o (B.presented_code r) = Some (d_code_key d, s) ->
+  (now_s <= B.s_refresh_dl s)%Z -> (now_s <= B.s_lifetime_dl s)%Z ->
+  r_status resp = 200 /\ r_body resp = BJson (session_json s now_s) /\ r_calls resp = [] /\
+  r_sess_ops resp = [] /\ r_ran resp = Some (HBack B.HRedeem).
+Proof.
+  intros Hm Hi Hid Hsec Ho Hr Hl. unfold resp. rewrite back_flat. unfold method_ok.
+  cbn [rt_back rt_methods]. rewrite Hm. cbn [mem_str]. rewrite str_eqb_refl. cbn [orb negb].
+  rewrite Hi. cbn [gate_passes_b]. rewrite Hid, Hsec, !str_eqb_refl. cbn [negb].
+  unfold h_back, of_back_handler, redeem_clears. cbn [B.run_handler B.redeem B.parse_form B.form_of negb andb].
+  change (B.form_get B.k_code (the_form r)) with (B.presented_code r).
+  unfold B.unseal. cbn [B.e_open benv B.cfg_code_key bcfg]. rewrite Ho, N.eqb_refl.
+  change (B.e_now (benv d p o an (now_ns / ns))) with now_s.
+  assert (X1 : (B.s_refresh_dl s <? now_s)%Z = false) by (apply Z.ltb_ge; exact Hr).
+  assert (X2 : (B.s_lifetime_dl s <? now_s)%Z = false) by (apply Z.ltb_ge; exact Hl).
+  rewrite X1, X2. cbn. repeat split; reflexivity.
+Qed.
+
+End Redeem.
